@@ -88,7 +88,7 @@ def build_lean(verbose: bool = False) -> tuple[bool, str]:
         return ok, out + f'\n[lake build {time.time() - t0:.1f}s rc={res.returncode}]'
 
 
-_FORBIDDEN = re.compile(r'\b(sorry|admit|native_decide|bv_decide|implemented_by|unsafe)\b|^\s*axiom\s|maxHeartbeats\s+0')
+_FORBIDDEN = re.compile(r'\b(sorry|admit|native_decide|bv_decide|implemented_by)\b|\bunsafe\s+(def|instance|structure|inductive|opaque|theorem|abbrev|axiom)\b|^\s*axiom\s|maxHeartbeats\s+0')
 
 
 def strip_comments(src: str) -> str:
